@@ -49,6 +49,28 @@ def _int(v, what="integer"):
     raise Undecided(f"{what} of type {type(v).__name__}")
 
 
+class TaintedInt(int):
+    """A count that is concrete under the standing assumption 'computed values are numbers' but really depends on candle values
+    (how many elements of a computed series are NaN): used as an index / slice bound it makes everything selected depend on them."""
+
+    def __new__(cls, v, carrier):
+        x = int.__new__(cls, v)
+        x.carrier = carrier
+        return x
+
+
+def _slice_carrier(s: slice):
+    for b in (s.start, s.stop, s.step):
+        if isinstance(b, TaintedInt):
+            return b.carrier
+    return None
+
+
+def _taint(xs, carrier):
+    from .indic_vals import mk
+    return [mk("dep", y, carrier) if isinstance(y, D) else y for y in xs]
+
+
 def _norm_slice(s: slice):
     return slice(_int(s.start), _int(s.stop), _int(s.step))
 
@@ -72,7 +94,12 @@ def getitem(it, base, key):
     if isinstance(base, NA):
         if base.ndim == 1:
             if isinstance(key, slice):
-                return NA(base.data[_norm_slice(key)], 1)
+                car = _slice_carrier(key)
+                sel = base.data[_norm_slice(key)]
+                return NA(_taint(sel, car) if car is not None else sel, 1)
+            if isinstance(key, TaintedInt):
+                x = base.data[int(key)]
+                return _taint([x], key.carrier)[0]
             if isinstance(key, NA):
                 # boolean mask or integer index array
                 if all(isinstance(k, bool) for k in key.data) and len(key.data) == len(base.data):
@@ -172,6 +199,9 @@ def setitem(it, base, key, v):
                         raise PyRaise("ValueError: broadcast")
                 else:
                     vals = [v] * len(idx)
+                car = _slice_carrier(key)
+                if car is not None:
+                    vals = _taint(vals, car)
                 for i, x in zip(idx, vals):
                     base.data[i] = x
                 return
@@ -841,6 +871,38 @@ def np_tril(it, args, kw):
     return NA([[x if j <= i + k else 0.0 for j, x in enumerate(r)] for i, r in enumerate(a.data)], 2)
 
 
+def np_count_nonzero(it, args, kw):
+    """count_nonzero(mask): concrete where the mask is; for isnan(x) / ~isnan(x) of computed elements the nominal count takes a
+    computed element to be a number (as everywhere), but when such an element MAY be NaN on valid candles the count depends on it"""
+    a = to_na(args[0])
+    if _axis(kw, args[1:]) is not None and a.ndim != 1:
+        raise Undecided("count_nonzero along an axis")
+    n = 0
+    sus = []
+    from .indic_finite import may_be_nonfinite
+    for k in a.flat():
+        if isinstance(k, D):
+            neg, kk = False, k
+            while kk.op in ("not", "invert") and len(kk.args) == 1 and isinstance(kk.args[0], D):
+                kk, neg = kk.args[0], not neg
+            if kk.op != "isnan" or not isinstance(kk.args[0], D):
+                raise Undecided("count_nonzero on a data-dependent array")
+            if neg:
+                n += 1              # ~isnan(computed): nominally a number
+            if may_be_nonfinite(kk.args[0]):
+                sus.append(kk.args[0])
+        elif k:
+            n += 1
+    if not sus:
+        return n
+    m_all = 0
+    for x in sus:
+        m_all |= x.m
+    carrier = sus[0] if len(sus) == 1 else D(m_all, hash(("nan-any",) + tuple(x.h for x in sus)), "nanany", tuple(sus))
+    it.assumptions_used = getattr(it, "assumptions_used", set()) | {"isnan(computed value) is False in count_nonzero (generic finite inputs); the count carries the dependence on the elements that may be NaN"}
+    return TaintedInt(n, carrier)
+
+
 def np_flatnonzero(it, args, kw):
     a = to_na(args[0])
     if any(isinstance(x, D) for x in a.data):
@@ -1095,6 +1157,8 @@ def b_round(it, args, kw):
 
 
 def b_int(it, args, kw):
+    if isinstance(args[0], TaintedInt):
+        return args[0]
     return unop("int", args[0])
 
 
@@ -1173,7 +1237,7 @@ def _init_ext():
         "ones_like": like(1.0), "empty_like": like(0.0), "arange": np_arange, "linspace": np_linspace, "array": np_array, "asarray": np_array,
         "ascontiguousarray": np_ascontiguous, "copy": np_copy, "concatenate": np_concatenate, "append": np_append, "insert": np_insert,
         "vstack": np_vstack, "column_stack": np_column_stack, "hstack": lambda it, a, k: np_concatenate(it, [a[0]], {}), "repeat": np_repeat,
-        "sum": np_sum, "nansum": np_nansum, "max": np_max, "amax": np_max, "min": np_min, "amin": np_min, "nanmax": np_max, "nanmin": np_min,
+        "count_nonzero": np_count_nonzero, "sum": np_sum, "nansum": np_nansum, "max": np_max, "amax": np_max, "min": np_min, "amin": np_min, "nanmax": np_max, "nanmin": np_min,
         "mean": np_mean, "nanmean": np_nanmean, "prod": np_prod,
         "std": opaque_reduce("std"), "nanstd": opaque_reduce("nanstd"), "var": opaque_reduce("var"), "median": opaque_reduce("median"),
         "percentile": opaque_reduce("percentile"), "quantile": opaque_reduce("quantile"),
